@@ -48,7 +48,7 @@ from mpsa.cfg import CFG, Node, calls_in, header_expr, walk_shallow
 from mpsa.flow import enumerate_paths
 from mpsa.match import Scope, is_name, is_none, method_of, unwrap_await
 
-from .common import build_cfg
+from .common import build_cfg, find_unpack
 from .fifo import consumer_fallible, consumer_loop, feeder_fallible, get_sites, input_loop, loop_var, put_sites
 
 
@@ -177,10 +177,9 @@ def _ev_consumer(m, cfg: CFG, loop: Node):
             v = unwrap_await(n.ast.value)
             if isinstance(v, ast.Call) and get_sites(v, m.oscope, m.q) and isinstance(n.ast.targets[0], ast.Name):
                 zname = n.ast.targets[0].id
-    for n in cfg.nodes:
-        if loop.id in n.loops and n.pending is None and isinstance(n.ast, ast.Assign) and isinstance(n.ast.targets[0], ast.Tuple) and is_name(n.ast.value, zname):
-            el = n.ast.targets[0].elts
-            names = {el[0].id: 'x', el[1].id: 'F'}
+    unp = find_unpack(cfg, loop.id, zname, pending_none=True)
+    if unp is not None and len(unp.names) >= 2 and unp.names[0] and unp.names[1]:
+        names = {unp.names[0]: 'x', unp.names[1]: 'F'}
     ynames = set()
 
     def role(e):
@@ -201,7 +200,7 @@ def _ev_consumer(m, cfg: CFG, loop: Node):
             if isinstance(t, ast.Compare) and is_name(t.left, zname) and is_none(t.comparators[0]):
                 return 'IS_END?' if isinstance(t.ops[0], ast.Is) else 'NOT_END?'
             if isinstance(t, ast.Call) and dotted(t.func) == 'isinstance' and is_name(t.args[0], zname):
-                return f'IS_EXC({norm_text(t.args[1])})?'
+                return 'IS_EXC?'  # which classes: C05-2 (marker protocol) decides that the test covers what the feeder forwards
             return f'FLAG({norm_text(t)})?'
         if n.kind == 'except':
             return f'CATCH({",".join(sorted(set(n.extra.get("caught") or ()) - ERASED))})'
@@ -214,6 +213,9 @@ def _ev_consumer(m, cfg: CFG, loop: Node):
                 return 'RAISE(' + (role(a.exc) if a.exc is not None else '') + ')'
             if isinstance(a, ast.Assign):
                 v = a.value
+                if unp is not None and n.id in unp.ids:
+                    # the message taken apart: one event, whether written `x, f = z` or `x = z[0]; f = z[1]`
+                    return '(' + ','.join(names.get(nm, nm or '_') for nm in unp.names) + ')=z' if n.id == unp.id else None
                 tgt = role(a.targets[0])
                 if isinstance(v, ast.Await) and isinstance(v.value, ast.Name):
                     return f'{tgt}=RESULT({role(v.value)})'
